@@ -485,6 +485,15 @@ fn run_int(base: i64, steps: &[i64], out: &mut JobOut) {
 /// resolve (16 knots per f32 value), unevenly spaced: for sampled intervals a twin poisoned outside
 /// the bracket must give the same bits for queries at the knot, next to it and inside the interval.
 fn run_long_dense(n: usize, out: &mut JobOut) {
+    run_long(n, 0, out)
+}
+
+/// `graded`: x_i = i^2 (the position computed from the end points is off by up to a quarter of the
+/// axis, so the lookup has to search a very wide range)
+fn run_long(n: usize, kind: u8, out: &mut JobOut) {
+    // kind 1: x_i = i^2; kind 2: unit spacing with six intervals of width 10^6 at the right end and at
+    // the left end (the position computed from the end points is off by a third of the axis)
+    let graded = kind != 0;
     use ndarray::Array1;
     use ndarray_interp::interp1d::{Interp1DBuilder, Linear};
     // 2^-17 apart around 1024 (f32 resolution there: 2^-13), every 7th knot shifted by 2^-19, every
@@ -492,6 +501,16 @@ fn run_long_dense(n: usize, out: &mut JobOut) {
     let mut x: Vec<f64> = Vec::with_capacity(n);
     let mut v = 1024.0f64;
     for i in 0..n {
+        if kind == 1 {
+            x.push((i as f64) * (i as f64));
+            continue;
+        }
+        if kind == 2 {
+            let left = 1e6 * (i.min(6) as f64);
+            let right = if i + 7 > n { 1e6 * (i + 7 - n) as f64 } else { 0.0 };
+            x.push(i as f64 + left + right);
+            continue;
+        }
         x.push(if i % 7 == 3 { v + 2.0f64.powi(-19) } else { v });
         v += if i % 1000 == 999 { 40.0 * 2.0f64.powi(-17) } else { 2.0f64.powi(-17) };
     }
@@ -499,7 +518,7 @@ fn run_long_dense(n: usize, out: &mut JobOut) {
     let val = |i: usize| -> f64 { [5.0, -3.0, 8.0, 0.5, 12.0, -7.0, 4.0][i % 7] + (i % 13) as f64 * 0.25 };
     let xa = Array1::from(x.clone());
     let y0: Array1<f64> = (0..n).map(val).collect();
-    let key = format!("long-dense:n{n}");
+    let key = format!("long-{}:n{n}", ["dense", "graded", "tails"][kind as usize]);
     let Ok(Ok(base)) = catch(|| Interp1DBuilder::new(y0.view()).x(xa.view()).strategy(Linear::new()).build()) else {
         out.violate(format!("{key}:build"), "valid long axis not accepted", Json::Null);
         return;
@@ -507,6 +526,11 @@ fn run_long_dense(n: usize, out: &mut JobOut) {
     out.states += 1;
     // sampled brackets: the first and last 40, around every 1000th (long) interval, and a stride through the axis
     let mut brackets: Vec<usize> = (0..40).chain(n - 41..n - 1).collect();
+    if graded {
+        brackets.extend(n - 1100..n - 1);
+        brackets.extend(0..1100);
+        brackets.extend((n / 2 - 300..n / 2 + 300).step_by(7));
+    }
     for k in (999..n - 1).step_by(1000).take(30) {
         brackets.extend([k - 1, k, k + 1]);
     }
@@ -604,13 +628,17 @@ fn body(ctx: &Ctx) -> (Summary, Meta) {
         run_int(j.0, &j.1, &mut out);
         out
     }));
-    sum.merge(run_jobs(ctx, "long-dense-axes", &[70_000usize, 140_000], |n| format!("long-dense:n{n}"), |n| {
+    sum.merge(run_jobs(ctx, "long-dense-axes", &[(70_000usize, 0u8), (140_000, 0), (140_000, 1), (600_000, 1), (400_000, 2)], |j| format!("long-{}:n{}", ["dense", "graded", "tails"][j.1 as usize], j.0), |j| {
         let mut out = JobOut::default();
-        run_long_dense(*n, &mut out);
+        if j.1 == 0 {
+            run_long_dense(j.0, &mut out);
+        } else {
+            run_long(j.0, j.1, &mut out);
+        }
         out
     }));
     let meta = Meta {
-        rule: "for every axis / grid: a base interpolator and twins that differ only outside the bracket: every single non-bracketing data row (2-D: node, x-row, y-column) set to NaN, +inf, -inf, 7.5, all non-bracketing rows at once, and every non-bracketing axis knot moved to 2-4 places strictly between its neighbours (incl. 1 ulp from them, end knots far out). The whole ascending query list (3 outside below, per interval knot/+1ulp/quarters/-1ulp, last knot, 3 outside above) is evaluated in one call on base and twin and compared bit for bit wherever the bracket (C11 convention x[i] <= q < x[i+1]) does not touch the change. Every such comparison is non-trivial. Phase long-dense-axes: f64 axes of 70000 / 140000 unevenly spaced knots 2^-17 apart near 1024 (16 knots per f32 value), about 450 sampled brackets each with the 128 surrounding rows poisoned. Phase i64-axes-beyond-2^53: i64 axes with 4 / 9 / 33 knots (unit steps, mixed steps, one wide interval) based at 0, 2^53, 2^60+1, -2^62: per interval (cell) a twin poisoned everywhere outside the bracket, every integer query of the interval, Linear and Bilinear (both orientations).".into(),
+        rule: "for every axis / grid: a base interpolator and twins that differ only outside the bracket: every single non-bracketing data row (2-D: node, x-row, y-column) set to NaN, +inf, -inf, 7.5, all non-bracketing rows at once, and every non-bracketing axis knot moved to 2-4 places strictly between its neighbours (incl. 1 ulp from them, end knots far out). The whole ascending query list (3 outside below, per interval knot/+1ulp/quarters/-1ulp, last knot, 3 outside above) is evaluated in one call on base and twin and compared bit for bit wherever the bracket (C11 convention x[i] <= q < x[i+1]) does not touch the change. Every such comparison is non-trivial. Phase long-dense-axes: f64 axes of 70000 / 140000 unevenly spaced knots 2^-17 apart near 1024 (16 knots per f32 value), about 450 sampled brackets each with the 128 surrounding rows poisoned; the same on axes x_i = i^2 of 140000 / 600000 knots and on a unit-spaced axis of 400000 knots with six intervals of width 10^6 at either end, incl. the first and last 1100 brackets. Phase i64-axes-beyond-2^53: i64 axes with 4 / 9 / 33 knots (unit steps, mixed steps, one wide interval) based at 0, 2^53, 2^60+1, -2^62: per interval (cell) a twin poisoned everywhere outside the bracket, every integer query of the interval, Linear and Bilinear (both orientations).".into(),
         bounds: format!("{njobs} (type, axis/grid) jobs; tier {}", ctx.tier.name()),
         assumptions: vec!["the bracket of a query exactly at an interior knot x[i] is (i, i+1), as C11 specifies".into()],
         extra: vec![],
